@@ -168,86 +168,48 @@ Definition get_config_value_raw (sections : list (key * cv)) (section k : key) :
   | _ => None
   end.
 
-(* ---- LanguageConfig getters and their coercions (shapes pinned by tools/translators/c13_pins.json) ---------- *)
+(* ---- LanguageConfig getters and their coercions --------------------------------------------------------------
+   _get_config_value_raw (under @no_default_value), get_config_value, get_config_value_as_bool, get_config_value_as_list
+   and get_config_value_as_dict are TRANSLATED statement by statement into Generated/Gen_C13.v (names LanguageConfig_...), over
+   the Python-value domain `pyv` and the exception monad `cfg_result` of ConfigBase.v.  Here: typed views of them. *)
 
-Inductive cfg_result (A : Type) :=
-| CfgOk (a : A)
-| CfgKeyError
-| CfgTypeError
-| CfgUnmodelled.           (* text of a list/float/dict: outside the model *)
-Arguments CfgOk {A} a.
-Arguments CfgKeyError {A}.
-Arguments CfgTypeError {A}.
-Arguments CfgUnmodelled {A}.
+Definition pv_str (s : list N) : pyv := PV (Leaf false (AStr s)).
+Definition pv_none : pyv := PV (Leaf false ANone).
+Definition pv_bool (b : bool) : pyv := PV (Leaf false (ABool b)).
 
-Fixpoint digit_codes (u : Decimal.uint) : list N :=
-  match u with
-  | Decimal.Nil => []
-  | Decimal.D0 r => 48 :: digit_codes r | Decimal.D1 r => 49 :: digit_codes r | Decimal.D2 r => 50 :: digit_codes r
-  | Decimal.D3 r => 51 :: digit_codes r | Decimal.D4 r => 52 :: digit_codes r | Decimal.D5 r => 53 :: digit_codes r
-  | Decimal.D6 r => 54 :: digit_codes r | Decimal.D7 r => 55 :: digit_codes r | Decimal.D8 r => 56 :: digit_codes r
-  | Decimal.D9 r => 57 :: digit_codes r
-  end.
+Definition res_map {A B : Type} (f : A -> cfg_result B) (r : cfg_result A) : cfg_result B := rbind r f.
 
-(* str(z) *)
-Definition py_str_int (z : Z) : list N :=
-  match Z.to_int z with
-  | Decimal.Pos u => digit_codes u
-  | Decimal.Neg u => 45 :: digit_codes u
-  end.
-
-(* str(x) of a leaf value *)
-Definition py_str (a : atom) : option (list N) :=
-  match a with
-  | ANone => Some [78; 111; 110; 101]
-  | ABool true => Some [84; 114; 117; 101]
-  | ABool false => Some [70; 97; 108; 115; 101]
-  | AInt z => Some (py_str_int z)
-  | AStr s => Some s
-  | AOpaque _ => None
-  end.
-
-(* s.lower(): ASCII; no non-ASCII character lower-cases to a letter of "false", so comparing with "false" is exact *)
-Definition ascii_lower (s : list N) : list N := map (fun c => if (65 <=? c) && (c <=? 90) then c + 32 else c) s.
-
-(* _get_config_value_raw under @no_default_value: dflt = None models _UNSET; result None = KeyError *)
+(* _get_config_value_raw(section, key, default): dflt = None models the _UNSET sentinel; result None = KeyError *)
 Definition config_raw (sections : list (key * cv)) (section k : key) (dflt : option cv) : option cv :=
-  match dget section sections with
-  | Some (Node m) => match dget k m with
-                     | Some v => Some (unwrap_default v)
-                     | None => option_map unwrap_default dflt
-                     end
-  | _ => option_map unwrap_default dflt
+  match LanguageConfig__get_config_value_raw sections (pv_str section) (pv_str k)
+          (match dflt with Some d => PV d | None => PUnset end) with
+  | CfgOk (PV v) => Some v
+  | _ => None
   end.
 
 (* get_config_value(section, key, default_value: Optional[str]) -> str *)
 Definition config_value (sections : list (key * cv)) (section k : key) (dflt : option (list N)) : cfg_result (list N) :=
-  match config_raw sections section k (option_map (fun s => Leaf false (AStr s)) dflt) with
-  | None => CfgKeyError
-  | Some (Leaf _ ANone) => CfgOk []                       (* "if we get None ... we wanted an empty string" *)
-  | Some (Leaf _ a) => match py_str a with Some s => CfgOk s | None => CfgUnmodelled end
-  | Some (Node _) => CfgUnmodelled
-  end.
+  res_map (fun r => match r with PV (Leaf _ (AStr s)) => CfgOk s | _ => CfgUnmodelled end)
+          (LanguageConfig_get_config_value sections (pv_str section) (pv_str k)
+             (match dflt with Some d => pv_str d | None => pv_none end)).
 
 (* get_config_value_as_bool(section, key, default_value: bool) -> bool *)
 Definition config_value_as_bool (sections : list (key * cv)) (section k : key) (dflt : bool) : cfg_result bool :=
-  match config_value sections section k (Some (if dflt then [116; 114; 117; 101] else [102; 97; 108; 115; 101])) with
-  | CfgOk result =>
-      if str_eqb (ascii_lower result) [102; 97; 108; 115; 101] || str_eqb result [48] then CfgOk false
-      else CfgOk (match result with [] => false | _ => true end)
-  | CfgKeyError => CfgKeyError
-  | CfgTypeError => CfgTypeError
-  | CfgUnmodelled => CfgUnmodelled
-  end.
+  res_map (fun r => match r with PV (Leaf _ (ABool b)) => CfgOk b | _ => CfgUnmodelled end)
+          (LanguageConfig_get_config_value_as_bool sections (pv_str section) (pv_str k) (pv_bool dflt)).
 
 (* get_config_value_as_dict(section, key, default_value: Optional[dict]) -> dict  (the stored dict itself) *)
 Definition config_value_as_dict (sections : list (key * cv)) (section k : key) (dflt : option (list (key * cv)))
   : cfg_result (list (key * cv)) :=
-  match config_raw sections section k (option_map Node dflt) with
-  | None => CfgKeyError
-  | Some (Node m) => CfgOk m
-  | Some (Leaf _ _) => match dflt with None => CfgTypeError | Some d => CfgOk d end
-  end.
+  res_map (fun r => match r with PV (Node m) => CfgOk m | _ => CfgUnmodelled end)
+          (LanguageConfig_get_config_value_as_dict sections (pv_str section) (pv_str k)
+             (match dflt with Some d => PV (Node d) | None => pv_none end)).
+
+(* get_config_value_as_list(section, key, default_value: Optional[list]) -> list  (lists are atoms `AList id`) *)
+Definition config_value_as_list (sections : list (key * cv)) (section k : key) (dflt : option N) : cfg_result N :=
+  res_map (fun r => match r with PV (Leaf _ (AList i)) => CfgOk i | _ => CfgUnmodelled end)
+          (LanguageConfig_get_config_value_as_list sections (pv_str section) (pv_str k)
+             (match dflt with Some i => PV (Leaf false (AList i)) | None => pv_none end)).
 
 (* Language.get_option(key, default): the raw entry of the validated options map (a DefaultValue stays wrapped) *)
 Definition get_option (options : list (key * cv)) (k : key) (dflt : cv) : cv :=
@@ -261,6 +223,7 @@ Definition bool_table (a : atom) : option bool :=
   | AInt z => Some (negb (Z.eqb z 0))
   | AStr s => Some (negb (str_eqb (ascii_lower s) [102; 97; 108; 115; 101] || str_eqb s [48] || match s with [] => true | _ => false end))
   | AOpaque _ => None
+  | AList _ => None
   end.
 
 (* ---- Language: options seen by templates ------------------------------------------------ *)
@@ -441,23 +404,27 @@ Fixpoint observe_langs (names : list key) (target : key) (s : list (key * cv))
 Definition observe_ctx (target : key) (s : list (key * cv)) : list (key * option (list (key * cv))) * list (key * cv) :=
   observe_langs (map fst s) target s.
 
-(* ---- several builders in one process ------------------------------------------------------- *)
+(* ---- several builders in one process: object identity of the LanguageConfig objects ------------------ *)
 
-(* What a LanguageContext reports is the CURRENT content of the LanguageConfig object it holds: the builder's own object
-   (CtxShared, create_detaches_config = false) or a private deep copy made by create() (CtxOwn).  Each LanguageContextBuilder()
-   owns a fresh LanguageClassLoader whose config is parsed anew from the packaged yaml, so distinct builders share nothing. *)
+(* LanguageConfig objects live in a heap (location = index into p_cfgs; None = an update raised).  A builder holds the
+   location of ITS LanguageConfig (a fresh object: every LanguageContextBuilder() owns a new LanguageClassLoader that parses
+   the packaged yaml anew), a context holds the location of the LanguageConfig it was given by create():
+     create_detaches_config = true : a fresh object holding a deep copy (`_detached_builder`),
+     create_detaches_config = false: the builder's own object.
+   Everything a context reports is read from that object NOW.  Writes: builder calls write the builder's object, create()
+   writes the builder's object (overrides merged) and the object given to the context (options validated in place),
+   get_supported_languages() on a context writes the context's object (non-target languages validate in place). *)
 Inductive pop :=
 | PNew                           (* LanguageContextBuilder() *)
 | POp (i : nat) (op : bop)       (* a builder call on builder i *)
-| PCreate (i : nat).             (* builder i .create() *)
+| PCreate (i : nat)              (* builder i .create() *)
+| PObserve (c : nat).            (* context c .get_supported_languages() (first use constructs the non-target languages) *)
 
-Inductive ctx :=
-| CtxShared (i : nat)
-| CtxOwn (s : list (key * cv)).
+Record hbuilder := { hb_cfg : nat; hb_lang : option key; hb_over : list (key * cv) }.
+Record hctx := { hc_cfg : nat; hc_target : key }.      (* hc_target: section name of the target language *)
+Record proc := { p_cfgs : list (option (list (key * cv))); p_builders : list hbuilder; p_ctxs : list hctx }.
 
-Record proc := { p_builders : list builder; p_ctxs : list ctx }.
-
-Definition empty_proc : proc := {| p_builders := []; p_ctxs := [] |}.
+Definition empty_proc : proc := {| p_cfgs := []; p_builders := []; p_ctxs := [] |}.
 
 Fixpoint upd_nth {A : Type} (i : nat) (f : A -> A) (l : list A) : list A :=
   match l, i with
@@ -466,43 +433,63 @@ Fixpoint upd_nth {A : Type} (i : nat) (f : A -> A) (l : list A) : list A :=
   | x :: r, S i' => x :: upd_nth i' f r
   end.
 
+Definition read_cfg (cfgs : list (option (list (key * cv)))) (l : nat) : option (list (key * cv)) :=
+  match nth_error cfgs l with Some s => s | None => None end.
+
+(* the builder as the value-level record the builder-layer functions work on *)
+Definition view (p : proc) (hb : hbuilder) : builder :=
+  {| b_sections := read_cfg (p_cfgs p) (hb_cfg hb); b_lang := hb_lang hb; b_over := hb_over hb |}.
+
 Definition papply (detach : bool) (builtin : list (key * cv)) (p : proc) (o : pop) : proc :=
   match o with
-  | PNew => {| p_builders := p_builders p ++ [new_builder builtin]; p_ctxs := p_ctxs p |}
-  | POp i op => {| p_builders := upd_nth i (fun b => bapply b op) (p_builders p); p_ctxs := p_ctxs p |}
+  | PNew =>
+      {| p_cfgs := p_cfgs p ++ [Some builtin];
+         p_builders := p_builders p ++ [{| hb_cfg := length (p_cfgs p); hb_lang := None; hb_over := [] |}];
+         p_ctxs := p_ctxs p |}
+  | POp i op =>
+      match nth_error (p_builders p) i with
+      | None => p
+      | Some hb =>
+          let b' := bapply (view p hb) op in
+          {| p_cfgs := upd_nth (hb_cfg hb) (fun _ => b_sections b') (p_cfgs p);
+             p_builders := upd_nth i (fun _ => {| hb_cfg := hb_cfg hb; hb_lang := b_lang b'; hb_over := b_over b' |}) (p_builders p);
+             p_ctxs := p_ctxs p |}
+      end
   | PCreate i =>
       match nth_error (p_builders p) i with
       | None => p
-      | Some b =>
-          let '(b', cs, o) := bcreate_st detach b in
-          {| p_builders := upd_nth i (fun _ => b') (p_builders p);
-             p_ctxs := match cs, o with
-                       | Some s, Some _ => p_ctxs p ++ [if detach then CtxOwn s else CtxShared i]
-                       | _, _ => p_ctxs p                 (* create raised: no context *)
-                       end |}
+      | Some hb =>
+          let '(b', cs, o) := bcreate_st detach (view p hb) in
+          let cfgs1 := upd_nth (hb_cfg hb) (fun _ => b_sections b') (p_cfgs p) in
+          match cs, o, resolve_language (view p hb) with
+          | Some s, Some _, Some l =>
+              if detach
+              then {| p_cfgs := cfgs1 ++ [Some s]; p_builders := p_builders p;
+                      p_ctxs := p_ctxs p ++ [{| hc_cfg := length cfgs1; hc_target := section_of l |}] |}
+              else {| p_cfgs := cfgs1; p_builders := p_builders p;
+                      p_ctxs := p_ctxs p ++ [{| hc_cfg := hb_cfg hb; hc_target := section_of l |}] |}
+          | _, _, _ => {| p_cfgs := cfgs1; p_builders := p_builders p; p_ctxs := p_ctxs p |}     (* create raised: no context *)
+          end
+      end
+  | PObserve c =>
+      match nth_error (p_ctxs p) c with
+      | None => p
+      | Some x =>
+          {| p_cfgs := upd_nth (hc_cfg x) (option_map (fun s => snd (observe_ctx (hc_target x) s))) (p_cfgs p);
+             p_builders := p_builders p; p_ctxs := p_ctxs p |}
       end
   end.
 
 Definition prun (detach : bool) (builtin : list (key * cv)) (ops : list pop) (p : proc) : proc :=
   fold_left (papply detach builtin) ops p.
 
-(* what context c reports now (None: no such context; Some None: its builder's configuration is in an error state) *)
+(* what context c reports now: the content of the LanguageConfig object it holds (None: no such context) *)
 Definition ctx_report (p : proc) (c : nat) : option (option (list (key * cv))) :=
   match nth_error (p_ctxs p) c with
-  | Some (CtxOwn s) => Some (Some s)
-  | Some (CtxShared i) => option_map b_sections (nth_error (p_builders p) i)
+  | Some x => nth_error (p_cfgs p) (hc_cfg x)
   | None => None
   end.
 
-Definition pop_touches (i : nat) (o : pop) : bool :=
-  match o with PNew => false | POp j _ => Nat.eqb i j | PCreate j => Nat.eqb i j end.
-
-(* the ops leave alone the builder whose configuration context c shares (vacuous for a context with its own copy) *)
-Definition ops_spare_ctx (p : proc) (c : nat) (ops : list pop) : bool :=
-  match nth_error (p_ctxs p) c with
-  | Some (CtxShared i) => Nat.ltb i (length (p_builders p)) && forallb (fun o => negb (pop_touches i o)) ops
-  | Some (CtxOwn _) => true
-  | None => false
-  end.
-
-Definition all_own (cs : list ctx) : bool := forallb (fun c => match c with CtxOwn _ => true | CtxShared _ => false end) cs.
+(* the only operation allowed to change what context c reports: its own lazy construction of the non-target languages *)
+Definition pop_observes (c : nat) (o : pop) : bool :=
+  match o with PObserve c' => Nat.eqb c c' | _ => false end.
